@@ -30,8 +30,12 @@ fn foreign_element(rng: &mut Rng) -> String {
 
 /// byte offsets of line starts where an element may be inserted as a sibling: inside the root,
 /// outside every prototype
-fn insertion_points(xml: &str) -> Vec<usize> {
+
+/// (all insertion points, those directly inside a Vector container: data3D, images2D, originalGuids)
+fn insertion_points2(xml: &str) -> (Vec<usize>, Vec<usize>) {
     let mut pts = vec![];
+    let mut vec_pts = vec![];
+    let mut prev_vec = false;
     let mut pos = 0usize;
     let mut in_proto = false;
     let mut line_no = 0;
@@ -45,14 +49,18 @@ fn insertion_points(xml: &str) -> Vec<usize> {
         }
         if line_no >= 2 && !in_proto && line.starts_with('<') {
             pts.push(pos);
+            if prev_vec || line.starts_with("</originalGuids>") || line.starts_with("</data3D>") || line.starts_with("</images2D>") {
+                vec_pts.push(pos);
+            }
         }
+        prev_vec = line.contains("type=\"Vector\"") || (line.starts_with("<vectorChild type=\"String\"") && !in_proto);
         if line.starts_with("<prototype") {
             in_proto = true;
         }
         pos += line.len();
         line_no += 1;
     }
-    pts
+    (pts, vec_pts)
 }
 
 /// byte offsets right after an element's tag name where a foreign attribute can be inserted
@@ -99,6 +107,15 @@ pub fn generate(sink: &mut Sink, seed: u64, thorough: bool) {
             let mut g = Gen { rng: &mut rng, exts: vec![], n: 0 };
             g.program(12)
         };
+        // the optional originalGuids vector is rare in random programs: make it common here
+        for st in prog.stmts.iter_mut() {
+            if let Stmt::Pc { body, .. } = st {
+                if rng.chance(1, 2) {
+                    let gs: Vec<String> = (0..rng.below(3)).map(|k| format!("orig-{k}")).collect();
+                    body.insert(0, PcStmt::Og(Some(gs)));
+                }
+            }
+        }
         prog.stmts.insert(0, Stmt::Ext("fx".into(), "urn:example:foreign".into()));
         // baseline
         let dev = SimDev::new(vec![]);
@@ -118,11 +135,15 @@ pub fn generate(sink: &mut Sink, seed: u64, thorough: bool) {
             let a = *rng.pick(&["type", "fileOffset", "length", "recordCount", "minimum", "maximum", "precision", "custom"]);
             (*rng.pick(&pts), format!(" fx:{a}=\"{}\"", *rng.pick(&["Bogus", "0", "String", "99999999"])), "attribute")
         } else {
-            let pts = insertion_points(&xml);
+            let (pts, vec_pts) = insertion_points2(&xml);
             if pts.is_empty() {
                 continue;
             }
-            (*rng.pick(&pts), foreign_element(&mut rng), "element")
+            if !vec_pts.is_empty() && rng.chance(1, 3) {
+                (*rng.pick(&vec_pts), foreign_element(&mut rng), "element-in-vector")
+            } else {
+                (*rng.pick(&pts), foreign_element(&mut rng), "element")
+            }
         };
         let n_stmts = prog.stmts.len();
         prog.stmts[n_stmts - 1] = Stmt::FinX(format!("ins:{}:{}", pos, hexs(&text)));
@@ -144,7 +165,10 @@ pub fn generate(sink: &mut Sink, seed: u64, thorough: bool) {
             continue;
         }
         match guarded(|| read_scene(&run.file, maxp)) {
-            Err(p) => sink.fail("C08", "reader/panic-on-foreign-content", &replay, &format!("panic: {p}")),
+            Err(p) => {
+                sink.fail("C08", "reader/panic-on-foreign-content", &replay, &format!("panic: {p}"));
+                sink.fail("C18", "foreign/panic-on-foreign-content", &replay, &format!("panic: {p}"));
+            }
             Ok(Err(e)) => sink.fail("C18", &format!("foreign/{kind}-breaks-open"), &replay, &format!("inserting {} under <{parent}> makes the file unreadable: {e}", text.trim().lines().next().unwrap_or(""))),
             Ok(Ok(scene_b)) => {
                 let diffs = same_scene(&scene_a, &scene_b);
